@@ -221,8 +221,8 @@ HARNESSES = [
                    [{'op': op, 'kmax': 0, 'depths': d} for op in ('translate', 'swap')
                     for d in ((-2.5, -5.25), (-7.0, -0.5))] +
                    [{'op': 'translate', 'heavy': True}]},
-            budget={'quick': {'wall_s': 500, 'query_timeout_ms': 60000},
-                    'thorough': {'wall_s': 1500, 'query_timeout_ms': 120000}}),
+            budget={'quick': {'wall_s': 500, 'query_timeout_ms': 60000, 'light_decide': True},
+                    'thorough': {'wall_s': 1500, 'query_timeout_ms': 120000, 'light_decide': True}}),
     Harness('graded-invariants', h_graded_invariants, _mods, encodes=_enc, twins=('rho',),
             cases={'quick': [{'kind': 'specialized'}, {'kind': 'basic'}],
                    'thorough': [{'kind': k, 'depths': d} for k in ('specialized', 'basic')
